@@ -224,7 +224,7 @@ def run_harness(exe, ops_path, out_path, timeout=1200, extra_env=None):
         # the process died while executing op number len(got)+1 of this part
         crashes += 1
         k = min(len(got), len(cur_ops) - 1)
-        done += got[:k] + ["process-died " + (re.sub(r"\s+", "_", (re.search(r"(fatal error: [^\n]*|panic: [^\n]*|signal: [^\n]*|verif-watchdog: op did not return within 90s \(stalled\))", out) or re.match(r"", "")).group(0))[:200] or "rc=%d" % rc)]
+        done += got[:k] + ["process-died " + (re.sub(r"\s+", "_", (re.search(r"(fatal error: [^\n]*|panic: [^\n]*|signal: [^\n]*|verif-watchdog: op did not return within 45s \(stalled\))", out) or re.match(r"", "")).group(0))[:200] or "rc=%d" % rc)]
         rest = cur_ops[k + 1:]
         # resume at the next reset op so that stateful streams stay consistent
         j = 0
@@ -232,7 +232,8 @@ def run_harness(exe, ops_path, out_path, timeout=1200, extra_env=None):
             done.append("not-run")
             j += 1
         cur_ops = rest[j:]
-        if not cur_ops or crashes >= 20:
+        stalled = "verif-watchdog" in out
+        if not cur_ops or crashes >= (6 if stalled else 20):
             done += ["not-run"] * len(cur_ops)
             break
     open(out_path, "w").write("\n".join(done) + "\n")
